@@ -26,6 +26,12 @@ TEXT.update({
  "C17": ("Every AnyLayout and &AnyLayout row equals the wrapped layout's row cell by cell; the ten plain tables are pairwise distinct." + LAYOUT_NOTE, "T: exhaustive function table judged by TLC"),
 })
 
+TEXT.update({
+ "C04": ("MC_Event: history variables ('most recent event was a press', lock parities with Pause presses not counted) equal the decoder's modifier word in all 512 x 2 x 2 reachable states under the full event alphabet (invariant + frame action properties). Conformance: the synchronous product with the reachable graph of the real EventDecoder (modifiers observed through what the recording layout is shown) and of Keyboard (get_modifiers compared by value): all 770 048 + 382 976 transitions.", "G: reachable-graph product exploration in TLC"),
+ "C14": ("EventDecoder.tla is parameterised by an uninterpreted layout; OnePerPress, SilentOtherwise, ModifierPressIsRawSelf and LiveArguments are action properties. Conformance: the real EventDecoder / Keyboard with a recording layout - result and consulted (layout, key, modifiers, mode) must equal the spec's for every input in every product state, with set_ctrl_handling and change_layout in the alphabet.", "G: reachable-graph product exploration in TLC"),
+ "C08": ("No spec action can produce a panic result, so an observed panic can never be matched. The union of all extractions (every input in every reachable state of frame, both scancode decoders, event decoder, Keyboard; all 65 536 words; all 3.8M layout cells on 30 objects) runs in an overflow-checked, debug-assertion build under catch_unwind; TLC reports each panic observation.", "G+T: all extractions, panic observations judged by TLC"),
+})
+
 def main():
     checks = []
     for pid in sorted(pkverif.PROPS):
